@@ -13,7 +13,7 @@
    env.data(Format.TUPLE) - plus the base environment's / remote source's data before and after - is
    compared with the ideal (verdict) and with the machine prediction (drift / known findings).
 """
-import json, os, sys, itertools
+import json, os, sys, zlib
 from . import common as C
 from . import c17_adapter as A
 
@@ -79,12 +79,13 @@ def configs(tier, seed):
              M=[m_f2, m_i0, m_b, m_t], SL=[], HU=[],
              bounds=B(4 if th else 3, 1, 1, 1, kinds=["imp"], fewhosts=not th), modes=[]),
         dict(name="modes", T=[a_f, a_d, gx_i, gy] + ([gx_c, gkz] if th else []), M=[m_f2, m_i0, m_t], SL=slices[8:9], HU=[u2],
-             bounds=B(2, 1, 1, 1, fewhosts=True), modes=["base", "remote"]),
+             bounds=B(3 if th else 2, 1, 1, 1, fewhosts=True), modes=["base", "remote"]),
         dict(name="arrays", T=[v1, v1u, w2, gm, gs, ge, t2], M=[ma1, ma2, m_t, m_i0, ma3], SL=slices, HU=[u1],
              bounds=B(3 if th else 2, 1, 1, 1, fewhosts=True), modes=["remote"] if th else []),
-        dict(name="chain", T=[a_f, gx_i] + ([w2, a_d] if th else []), M=[m_f2, m_i0] + ([ma2] if th else []),
-             SL=slices[3:4] + slices[5:6] if th else [], HU=[u2] if th else [],
+        dict(name="chain", T=[a_f, gx_i] + ([a_d] if th else []), M=[m_f2, m_i0], SL=[], HU=[u2] if th else [],
              bounds=B(2, 1 if th else 0, 2, 1, fewhosts=True), modes=["base", "remote"]),
+        dict(name="chain-arrays", T=[w2, v1], M=[ma2], SL=slices[1:2] + slices[3:4] + slices[5:6], HU=[],
+             bounds=B(1, 1 if th else 0, 2, 1, fewhosts=True, kinds=["inj", "imp"] if th else ["inj"]), modes=["remote"] if th else []),
     ]
     return cfgs
 
@@ -186,6 +187,8 @@ def replay_record(rec):
 
 def clause_of(rec, res):
     i, o = rec["ideal"]["st"], res["obs_st"]
+    if o == "hang":
+        return "the parse terminates", f"{i}->hang"
     if res["unchanged"] is False:
         return "parsing on top of an environment / importing from a remote source leaves its nodes unchanged", "side-changed"
     if i == "rej":
@@ -207,6 +210,8 @@ def judge(V, rec, res, stats):
     tags = sorted(rec["tags"])
     if rec["ideal"]["unspec"]:
         V.unspecified()
+        if not res["ok_m"]:
+            stats[("unspecified-not-machine", res["obs_st"], ())] += 1
         return
     failed = (not res["ok_i"]) or res["unchanged"] is False
     if not failed:
@@ -242,45 +247,44 @@ def run(replay=None):
     _WD[0] = os.path.join(wd, "cases")
     tier, seed = C.tier(), C.seed()
     cfgs = configs(tier, seed)
-    recs, states, trans, per_cfg = [], 0, 0, {}
-    for cf in cfgs:
+    states, trans, per_cfg, nrec = 0, 0, {}, 0
+    stats, devs, samples = collections.Counter(), collections.Counter(), []
+    nontrivial = 0
+    for cf in cfgs:                                   # one configuration at a time (bounded memory)
         r = run_tlc(wd, cf)
         if r.violated:
             raise C.MachineryError(f"DipRefs ({cf['name']}): invariant {r.violated} violated - the machine transcription "
                                    f"disagrees with the ideal outside the named deviations:\n{r.cex[:1500]}")
-        for x in r.records:
-            x["_cfg"] = cf["name"]
-        recs += r.records
+        recs = r.records
+        r.records, r.stdout = None, ""
         states += r.distinct
         trans += r.generated
-        per_cfg[cf["name"]] = len(r.records)
+        per_cfg[cf["name"]] = len(recs)
+        for x in recs:
+            x["_cfg"] = cf["name"]             # layout / number format: a function of the program and the seed
+            x["_style"] = (zlib.crc32(json.dumps(x["prog"], sort_keys=True).encode()) + 7 * seed) % 12
+        results = C.pmap(replay_record, recs)
+        sampled = False
+        for rec, res in zip(recs, results):
+            judge(V, rec, res, stats)
+            if not rec["agree"] and not rec["ideal"]["unspec"]:
+                devs[" ".join(sorted(t for t in rec["tags"] if "." in t))] += 1
+            if rec["ideal"]["st"] == "ok" and len(rec["ideal"]["data"]) > sum(1 for ln in rec["prog"] if ln["k"] == "def"):
+                nontrivial += 1
+                if not sampled and rec["agree"] and len(rec["prog"]) >= 4:
+                    sampled = True
+                    first, second = A.split_program(rec)
+                    samples.append({"cfg": cf["name"], "mode": rec["mode"],
+                                    "texts": [A.render_lines(x, rec["_style"]) for x in (first, second) if x],
+                                    "expected": A.expected_data(rec["ideal"]["data"])})
+        nrec += len(recs)
+        del recs, results
     # sensitivity of BaseUnchanged: the parse that does not copy the base environment must be caught by TLC
-    cf0 = dict(cfgs[2], bounds=dict(cfgs[2]["bounds"], ref=1, late=0))
+    cf0 = dict(cfgs[2], bounds=dict(cfgs[2]["bounds"], **{"def": 2, "ref": 1, "late": 0}))
     r0 = run_tlc(wd, cf0, copy_on_parse=False, emit=False)
-    for i, x in enumerate(recs):
-        x["_style"] = (i + 7 * seed) % 12
-    results = C.pmap(replay_record, recs)
-    stats = collections.Counter()
-    devs = collections.Counter()
-    nontrivial = 0
-    for rec, res in zip(recs, results):
-        judge(V, rec, res, stats)
-        if not rec["agree"] and not rec["ideal"]["unspec"]:
-            devs[" ".join(sorted(t for t in rec["tags"] if "." in t))] += 1
-        if rec["ideal"]["st"] == "ok" and len(rec["ideal"]["data"]) > sum(1 for ln in rec["prog"] if ln["k"] == "def"):
-            nontrivial += 1
-    samples = []
-    for name in per_cfg:
-        for rec in recs:
-            if rec["_cfg"] == name and rec["ideal"]["st"] == "ok" and rec["agree"] and len(rec["prog"]) >= 4:
-                first, second = A.split_program(rec)
-                samples.append({"cfg": name, "mode": rec["mode"],
-                                "texts": [A.render_lines(x, rec["_style"]) for x in (first, second) if x],
-                                "expected": A.expected_data(rec["ideal"]["data"])})
-                break
     V.cov.update({
         "states": states + r0.distinct, "transitions": trans + r0.generated,
-        "traces_validated_against_impl": len(recs), "evaluations": len(recs),
+        "traces_validated_against_impl": nrec, "evaluations": nrec,
         "distinct_nontrivial": nontrivial,
         "rule": "every program TLC reaches within the bounds of the configurations " + json.dumps(per_cfg) +
                 " (tree <= 4 nodes of a template menu, <= 2 modifications, optional switch to base environment / remote "
